@@ -982,6 +982,10 @@ func closesChannel(fn *ssa.Function, ch string) string {
 		fns = append(fns, fns[i].AnonFuncs...)
 	}
 	named := func(v ssa.Value) bool {
+		if ch == "*" {
+			// any channel
+			return true
+		}
 		if refs := v.Referrers(); refs != nil {
 			for _, r := range *refs {
 				if d, ok := r.(*ssa.DebugRef); ok && d.Object() != nil && d.Object().Name() == ch {
